@@ -511,7 +511,28 @@ func (w *World) ScanSnap(snap *nitro.Snapshot, refreshRate int) ([]string, bool)
 }
 
 func diffSeq(got, want []string) string {
-	return fmt.Sprintf("got  %q\nwant %q", got, want)
+	if len(got) <= 300 && len(want) <= 300 {
+		return fmt.Sprintf("got  %q\nwant %q", got, want)
+	}
+	// long sequences: the first difference with some context
+	i := 0
+	for i < len(got) && i < len(want) && got[i] == want[i] {
+		i++
+	}
+	win := func(s []string) []string {
+		lo, hi := i-4, i+8
+		if lo < 0 {
+			lo = 0
+		}
+		if hi > len(s) {
+			hi = len(s)
+		}
+		if lo > hi {
+			lo = hi
+		}
+		return s[lo:hi]
+	}
+	return fmt.Sprintf("lengths got %d want %d; first difference at index %d\ngot  [%d-4..] %q\nwant [%d-4..] %q", len(got), len(want), i, i, win(got), i, win(want))
 }
 
 func equalSeq(a, b []string) bool {
